@@ -12,6 +12,27 @@ CHECKS = {
          "are compared with the specification's prediction. packets.TopicMatch is compared with Topics!Match on every (valid name, valid filter) pair over {a,b,/,+,#,$} up to length 4 (5 thorough). "
          "Exhaustive within the stated bounds, for the real code; nothing beyond the bounds.",
     note="Bounds: 2-3 clients, 7 filters per pack, <=3 live subscriptions, topic universe depth 3. Trusted: TLC, the JSON bridge, the replayer's projection function (public API only)."),
+ "C01": dict(
+    level="model_checking", ref="DESIGN.md §4 C01, §5",
+    technique="trace validation: wire traces of scripted clients against real in-process brokers validated by TLC against Broker.tla; TLC model check BrokerOp.tla refines Broker.tla",
+    text="Design level: TLC checks exhaustively (small constants) that an operational model of the broker's delivery algorithm (BrokerOp.tla: per-session queues, overlap / onlyonce accumulation, share-group pick) "
+         "refines the declarative delivery obligations of Broker.tla (HeadExplained, DrainedMeansQuiet). Conformance: seeded scenarios (random subscription tables over filters x QoS x NoLocal x RAP x id, v3/v5 subscribers, "
+         "publishers = other client / self / Publisher API, both delivery modes, concurrent numbered publishers) run on real brokers through an independent MQTT codec; every recorded event must be explained by a Broker.tla action "
+         "(obligation discharge with exact QoS/RETAIN/identifiers, per-(publisher,subscriber) order, ack pairing) and nothing may be owed at a barrier.",
+    note="Bounded: scenario sizes and alphabets, seeds. Barrier soundness rests on the session queue being FIFO (a broken FIFO shows up as a late packet = rejection). Trusted: TLC, mqttwire codec, the wire driver's logging discipline (inputs logged before write, outputs after read)."),
+ "C11": dict(
+    level="model_checking", ref="DESIGN.md §4 C11",
+    technique="TLC exhaustive SubStore.tla + transition-coverage replay over share-group alphabets; trace validation of membership-churn scenarios against Broker.tla; BrokerOp.tla refinement check",
+    text="Store layer: every transition of SubStore.tla over share-group packs (3 clients, same client in two groups on one filter, groups next to non-shared filters, wildcard and $ filters) replayed on the real store, all query modes compared "
+         "(a leaver changes nothing but its own entries). Broker layer: churn scenarios (join; leave by UNSUBSCRIBE, session end, abort, clean take-over) followed by numbered publications; TLC validates that each publication is delivered to exactly one "
+         "current member per matching group at min(QoS), independently of non-shared deliveries, and that a shared subscribe replays no retained message.",
+    note="Which member is picked is free. A group copy may stay parked while a member is offline. Bounded alphabets/scenario sizes."),
+ "C18": dict(
+    level="model_checking", ref="DESIGN.md §4 C18",
+    technique="TLC model check WsConn.tla; TLC-enumerated segmentations (WsSeg.tla) replayed through a real WebSocket listener with a TCP twin as reference",
+    text="WsConn.tla: TLC checks that reads concatenate to the stream of binary payloads for all splits and read sizes in the bound; WsSeg.tla enumerates segmentations (all compositions of short streams, boundary families around the 1024-byte "
+         "reader buffer, cuts at -1/0/+1 of every packet boundary, empty and text messages); each is sent through gorilla/websocket to a real broker and the answers are compared byte for byte with the same stream over TCP.",
+    note="Bounded stream lengths / families; trusted: gorilla/websocket client, TCP twin as reference."),
 }
 
 NOT_YET = {
